@@ -25,7 +25,7 @@
 
     WHAT L1 LEAVES OUT.  Heap cells: stores and loads through memory (a load [*p] only carries the provenance of the
     register p), i.e. the alias / referrer / base-object rules (L2; [intra_sound_L2_noalias_partial] below covers only
-    cells addressed by one un-aliased register, with a store rule that is NOT part of R and is not checked on dumps);
+    cells addressed by one un-aliased register, with a store rule that is NOT part of R; its three booleans are evaluated on the dumps by the C08 driver);
     access paths / field sensitivity (L3); inter-procedural composition (a call result is a fresh origin, the callee's
     summary is not consulted); implicit flows; defers; and the relation between this provenance semantics and real Go
     execution, which is validated only by the native ground truth of tools/props/c01.py. *)
@@ -92,14 +92,17 @@ Proof. exact Proofs.RegSem.intra_sound_L1_direct_tcert. Qed.
 
     The heap of Lang/RegSem.v is LOCATION based (Alloc = fresh location, pointer copies through Phi / conversions,
     strong update at a store, load = provenance of the address register united with that of the cell).
-    PARTIAL because: (a) the fragment: every register dereferenced by a store or load is defined by Alloc instructions
-    only ([addr_alloc], boolean [check_addr_alloc]) -- copies of the pointer may exist but are never dereferenced, so
-    no run-time aliasing between dereferenced registers; no sub-cell pointers (FieldAddr / IndexAddr), maps, slices,
+    PARTIAL because: (a) the fragment: every register dereferenced by a store or load HAS a defining instruction and
+    is defined by Alloc instructions only ([addr_alloc], boolean [check_addr_alloc], equivalent by
+    [check_addr_alloc_ok]; a function dereferencing a parameter, free variable or global is OUTSIDE: see
+    [param_deref_outside]) -- copies of the pointer may exist but are never dereferenced, so no run-time aliasing
+    between dereferenced registers; no sub-cell pointers (FieldAddr / IndexAddr), maps, slices,
     channels, globals, pointers received from or escaping to other functions; [alias_needs_rule] below shows the
     conclusion FAILS without [addr_alloc] (that is what the alias rule of full L2 is for);
     (b) [store_closed] (the stored value's marks are put on the address register, as DoStore does) is an extra rule
-    beside R: it is not part of [Intra.closed], and [check_store_closed] / [check_addr_alloc] / [check_loads_ok] are not
-    run on the real dumps yet (the C08 dump has no store / load / alloc tables). *)
+    beside R: it is not part of [Intra.closed]; [check_store_closed] / [check_addr_alloc] / [check_loads_ok] are
+    extracted (coq/extracted/c08) and evaluated on every dumped function by the C08 check; functions failing
+    [check_addr_alloc] are outside the fragment and the theorem says nothing about them. *)
 Theorem intra_sound_L2_noalias_partial : forall (H : hfunc) (S : fact -> Prop),
   closed (h_func H) S -> store_closed H S -> loads_ok H -> addr_alloc H ->
   forall (orc : oracle) (fuel : nat) (entry : point) (c : hconfig) (v : value) (m : mark) (u : unode),
@@ -112,6 +115,10 @@ Theorem intra_sound_L2_noalias_partial_tcert : forall (H : hfunc) (l : list fact
   check_addr_alloc H = true ->
   In c (htrace H orc fuel entry) -> consumes (h_func H) (hc_pt c) v u -> hcarries c v m -> In (Edge m u) l.
 Proof. exact Proofs.RegSem.intra_sound_L2_noalias_partial_tcert. Qed.
+
+(** the boolean run on the dumps decides the fragment condition *)
+Theorem check_addr_alloc_ok : forall (H : hfunc), check_addr_alloc H = true <-> addr_alloc H.
+Proof. exact Proofs.RegSem.check_addr_alloc_ok. Qed.
 
 (** the executable observation used below is exactly "some executed use carries the mark" *)
 Theorem observed_edges_spec : forall (F : func) (t : list config) (m : mark) (u : unode),
@@ -382,3 +389,35 @@ Example alias_needs_rule :
   hobserved_edges H_alias (htrace H_alias orc0 10 1) = [(1, 1)] /\
   ~ In (Edge 1 1) S_alias.
 Proof. vm_compute. repeat split. intuition discriminate. Qed.
+
+(** *** a dereferenced PARAMETER puts the function outside the fragment
+    func setp(p *string, x string) string { *p = x; return *p }
+      1  *p(v1) = x(v2)      2  r(v3) = *p      3  return r
+    p has no defining instruction, so in this semantics it never holds a pointer: the store writes nothing and the
+    machine does not exhibit the flow x -> return (only p -> return).  [check_addr_alloc] rejects the function (it
+    used to accept it vacuously), so the theorem is not claimed for it, although every other check passes on the
+    fact set closed under R and the store rule. *)
+Definition H_param : hfunc :=
+  {| h_func := mk_func
+       [(1, {| i_kind := KOther; i_def := None; i_ops := [1; 2] |});
+        (2, {| i_kind := KUnOp; i_def := Some 3; i_ops := [1] |});
+        (3, {| i_kind := KReturn; i_def := None; i_ops := [3] |})]
+       [(1, [2]); (2, [3]); (3, [])]
+       [(3, 2); (1, 1); (2, 1)]
+       [(1, 1, 1); (2, 1, 2)]
+       []
+       [(3, [(3, 1)])];
+     h_store := map_of_list [(1, (1, 2))];
+     h_load := map_of_list [(2, 1)];
+     h_alloc := pts [] |}.
+
+Definition S_param : list fact :=
+  map (fun p => Mark p 1 1) [1; 2; 3] ++ map (fun p => Mark p 2 2) [1; 2; 3] ++ map (fun p => Mark p 1 2) [1; 2; 3] ++
+  flat_map (fun p => [Mark p 3 1; Mark p 3 2]) [2; 3] ++ [Edge 1 1; Edge 2 1].
+
+Example param_deref_outside :
+  check_addr_alloc H_param = false /\
+  check_closed (h_func H_param) S_param = true /\ check_store_closed H_param S_param = true /\
+  check_loads_ok H_param = true /\ check_wf_ssa (h_func H_param) = true /\
+  hobserved_edges H_param (htrace H_param orc0 10 1) = [(1, 1)].
+Proof. vm_compute. repeat split. Qed.
